@@ -307,7 +307,7 @@ class Ctx(object):
                 uniq.append(v)
         return uniq[:count]
 
-    def run_machine(self, entry, max_examples, step_count, cls=None):
+    def run_machine(self, entry, max_examples, step_count, cls=None, shrink=True):
         """Hypothesis stateful search; the machine records its own trace for replay."""
         if self.failure is not None or max_examples <= 0:
             return
@@ -328,6 +328,7 @@ class Ctx(object):
         sett = settings(max_examples=max_examples, stateful_step_count=step_count, database=None,
                         deadline=None, derandomize=False, report_multiple_bugs=False,
                         verbosity=Verbosity.quiet,
+                        phases=[Phase.generate, Phase.shrink] if shrink else [Phase.generate],
                         suppress_health_check=[HealthCheck.too_slow, HealthCheck.data_too_large,
                                                HealthCheck.large_base_example,
                                                HealthCheck.filter_too_much])
@@ -480,6 +481,12 @@ def _worker(args):
         mod = _load(prop)
         ctx = Ctx(prop, tier, seed, shard, nshards, tmproot, load_known())
         ctx.module = mod
+        # sedfitter itself calls mkdtemp() (memory-mapped model fluxes) and never cleans up: keep that inside the
+        # run's scratch directory, which is removed when the check exits
+        scratch = os.path.join(tmproot, 'tmp%02d' % shard)
+        os.makedirs(scratch, exist_ok=True)
+        tempfile.tempdir = scratch
+        os.environ['TMPDIR'] = scratch
         t0 = time.time()
         mod.plan(ctx)
         return {'shard': shard, 'evaluations': ctx.evaluations, 'labels': dict(ctx.labels),
